@@ -51,6 +51,23 @@ func genRSBehaviour(r *rand.Rand, trace, length int, mode string) *rsBehaviour {
 	} else {
 		b.Tinf = true
 	}
+	b.InfKind = r.Intn(5)
+	// "wide" histories use both ends of the 2^24 window: logical offsets at or
+	// above the pivot are shifted so that the highest one is exactly 2^24-1
+	// above offset 0 (the largest difference that is not a roll-over).
+	wide, pivot, top := r.Intn(6) == 0, 2+r.Intn(6), 12+r.Intn(10)
+	shift := func(off int) int {
+		if !wide {
+			return off
+		}
+		if off > top {
+			off = top
+		}
+		if off >= pivot {
+			return off + (1<<24 - 1) - top
+		}
+		return off
+	}
 	switch r.Intn(8) {
 	case 0:
 		b.Base = limbs(0)
@@ -92,7 +109,7 @@ func genRSBehaviour(r *rand.Rand, trace, length int, mode string) *rsBehaviour {
 				cursor = r.Intn(3)
 				off = cursor
 			default:
-				if budget > 0 && high < 1000 {
+				if budget > 0 && high < 1000 && !wide {
 					cursor += 1 + r.Intn(budget)
 					budget = 0
 					off = cursor
@@ -104,7 +121,10 @@ func genRSBehaviour(r *rand.Rand, trace, length int, mode string) *rsBehaviour {
 			if off > high {
 				high = off
 			}
-			op := rsOp{Op: "push", Off: off, Type: rsRandomType(r)}
+			if wide && cursor > top {
+				cursor = top
+			}
+			op := rsOp{Op: "push", Off: shift(off), Type: rsRandomType(r)}
 			if r.Intn(12) == 0 {
 				op.Op = "pushraw"
 				op.Bad = r.Intn(4) == 0
@@ -133,15 +153,18 @@ func genRSBehaviour(r *rand.Rand, trace, length int, mode string) *rsBehaviour {
 		default:
 			// an event in one go: records then a terminator
 			cursor++
+			if wide && cursor > top {
+				cursor = top
+			}
 			if cursor > high {
 				high = cursor
 			}
 			n := 1 + r.Intn(4)
 			for i := 0; i < n; i++ {
-				b.Ops = append(b.Ops, rsOp{Op: "push", Off: cursor, Type: pick(r, rsPlainTypes)})
+				b.Ops = append(b.Ops, rsOp{Op: "push", Off: shift(cursor), Type: pick(r, rsPlainTypes)})
 			}
 			if r.Intn(3) > 0 {
-				b.Ops = append(b.Ops, rsOp{Op: "push", Off: cursor, Type: 1320})
+				b.Ops = append(b.Ops, rsOp{Op: "push", Off: shift(cursor), Type: 1320})
 			}
 		}
 	}
